@@ -165,7 +165,7 @@ def render(frag, name, rng=None, noise_p=0.0, renamed=False, shift=0, ind=0):
 PLACES = ["same_file", "other_file", "other_dir"]
 
 
-def gen_project(rng, n_bases=3, heavy_noise_p=0.25, max_items=9):
+def gen_project(rng, n_bases=3, heavy_noise_p=0.25, max_items=9, twins_p=0.5):
     """A project: dict path -> text, plus the list of intended verbatim groups (by item name)."""
     g = FragGen(rng)
     files = {"main.py": [], "util.py": [], "pkg/core.py": [], "pkg/sub/deep.py": []}
@@ -202,6 +202,18 @@ def gen_project(rng, n_bases=3, heavy_noise_p=0.25, max_items=9):
                 place(g.edit(frag), path, "edited", b)
     for _ in range(rng.randint(0, 2)):
         place(g.function(2, 6), rng.choice(order), "unrelated", -1)
+    if rng.random() < twins_p:
+        # a fragment and its related-construct twin (see TWIN_KINDS below), either variant first in file order
+        kinds = rng.choice(TWIN_MIXES)
+        occ, nf = rng.randint(1, 3), rng.randint(2, 8)
+        counter[0] += 1
+        name = "twin%d" % counter[0]
+        pa, pb = rng.sample(order, 2)
+        for v, path in rng.sample([(0, pa), (1, pb)], 2):
+            lines = twin_function(kinds, occ, nf, v, name)
+            items.append({"name": name, "path": path, "relation": "twin", "base": -2, "kind": "def", "start": len(files[path]) + 3,
+                          "twin_kinds": list(kinds), "variant": v})
+            files[path] += lines + ["", ""]
     texts = {p: "\n".join(["import os", ""] + ls) + "\n" for p, ls in files.items() if ls}
     return texts, items
 
@@ -391,3 +403,113 @@ def norm(res):
         if f.get("feats") is None:
             f["feats"] = []
     return res
+
+
+# ------------------------------------------------------------------------------------------
+# "related construct" twins: two fragments that differ only in node types the Python cost
+# model treats as related (apted_cost.go areRelatedNodeTypes) or as of the same category.
+# The rename discount must be the same in both directions, otherwise the similarity of a pair
+# depends on which fragment comes first (file order / orientation inside the pair).
+# ------------------------------------------------------------------------------------------
+def related_pairs_from_source(repo):
+    """The relatedPairs table of PythonCostModel.areRelatedNodeTypes, read from the Go source."""
+    import re
+    try:
+        src = open(os.path.join(repo, "internal", "analyzer", "apted_cost.go")).read()
+    except OSError:
+        return None
+    m = re.search(r"func \(c \*PythonCostModel\) areRelatedNodeTypes.*?relatedPairs := \[\]\[2\]string\{(.*?)\n\t\}", src, re.S)
+    if not m:
+        return None
+    return [tuple(p) for p in re.findall(r'\{"(\w+)",\s*"(\w+)"\}', m.group(1))]
+
+
+# kind -> (node types of variant 0 / variant 1, needs async def in variant 1)
+TWIN_KINDS = {
+    "for": (("For", "AsyncFor"), True),
+    "with": (("With", "AsyncWith"), True),
+    "def": (("FunctionDef", "AsyncFunctionDef"), True),
+    "binunary": (("BinOp", "UnaryOp"), False),
+    "listtuple": (("List", "Tuple"), False),
+    "comp": (("ListComp", "GeneratorExp"), False),
+    "ififexp": (("If", "IfExp"), False),
+    # same category, not in the related table
+    "setlist": (("Set", "List"), False),
+    "setcomp": (("SetComp", "ListComp"), False),
+    "whilefor": (("While", "For"), False),
+}
+# relatedPairs entry -> twin kind that exercises it
+RELATED_TO_KIND = {("FunctionDef", "AsyncFunctionDef"): "def", ("For", "AsyncFor"): "for", ("With", "AsyncWith"): "with",
+                   ("BinOp", "UnaryOp"): "binunary", ("List", "Tuple"): "listtuple", ("ListComp", "GeneratorExp"): "comp",
+                   ("If", "IfExp"): "ififexp"}
+
+
+TWIN_MIXES = [["for"], ["with"], ["with", "for"], ["binunary"], ["listtuple"], ["comp"], ["ififexp"], ["def"], ["setlist"], ["setcomp"],
+              ["whilefor"], ["for", "listtuple"], ["with", "comp", "binunary"]]
+
+
+def twin_occurrence(kind, k, v):
+    """Source lines (body indentation) of occurrence k of a construct, variant v in {0, 1}."""
+    a = "async " if v else ""
+    if kind == "for":
+        return ["%sfor item%d in source.rows(%d):" % (a, k, k), "    total = total + item%d" % k, "    sink.write(item%d)" % k]
+    if kind == "with":
+        return ["%swith sink.batch(%d) as handle%d:" % (a, k, k), "    handle%d.push(total)" % k, "    log.debug(handle%d)" % k]
+    if kind == "def":
+        return ["log.debug(total + %d)" % k]
+    # Expression kinds: the converted tree (apted_tree.go ConvertAST) follows only Children/Body/Orelse/
+    # Finalbody/Handlers, so an expression reaches it as an expression *statement* or as an element
+    # (Children) of a list/tuple/set display, not as the value of an assignment.
+    if kind == "binunary":
+        return ["[%s, failed, %d]" % (("-total" if v else "total - %d" % k), k), ("-failed" if v else "failed + %d" % k)]
+    if kind == "listtuple":
+        return [("(total, failed, %d)" if v else "[total, failed, %d]") % k,
+                "[%s, %s]" % (("(total, %d)" if v else "[total, %d]") % k, ("(failed, %d)" if v else "[failed, %d]") % k)]
+    if kind == "comp":
+        inner = "conv(x) for x in source.rows(%d)" % k
+        return [("(%s)" if v else "[%s]") % inner, "[%s, total]" % (("(%s)" if v else "[%s]") % inner)]
+    if kind == "ififexp":
+        if v:
+            return ["total if total > %d else failed" % k, "sink.write(%d)" % k]
+        return ["if total > %d:" % k, "    total", "else:", "    failed", "sink.write(%d)" % k]
+    if kind == "setlist":
+        return [("[total, failed, %d]" if v else "{total, failed, %d}") % k,
+                "[%s, total]" % (("[failed, %d]" if v else "{failed, %d}") % k)]
+    if kind == "setcomp":
+        inner = "conv(x) for x in source.rows(%d)" % k
+        return [("[%s]" if v else "{%s}") % inner, "[%s, failed]" % (("[%s]" if v else "{%s}") % inner)]
+    if kind == "whilefor":
+        if v:
+            return ["for step%d in source.rows(%d):" % (k, k), "    total = total + 1", "    sink.write(total)"]
+        return ["while total < %d:" % (k + 3), "    total = total + 1", "    sink.write(total)"]
+    raise ValueError(kind)
+
+
+FILLER = ['total = 0', 'failed = 0', 'log.info("export started")', 'sink.open(source)', 'failed = failed + source.errors()',
+          'log.info("half way")', 'total = total + source.count()', 'sink.flush()', 'log.debug(total)', 'source.close()']
+
+
+def twin_function(kinds, occ, n_fill, v, name="export_records"):
+    """One function: `occ` occurrences of each construct of `kinds` (variant v) between shared filler statements."""
+    need_async = v == 1 and any(TWIN_KINDS[k][1] for k in kinds)
+    lines = ["%sdef %s(source, sink, log):" % ("async " if need_async else "", name)]
+    body = list(FILLER[:max(2, n_fill // 2)])
+    n = 0
+    for k in kinds:
+        for _ in range(occ):
+            n += 1
+            body += twin_occurrence(k, n, v)
+    body += FILLER[max(2, n_fill // 2):n_fill]
+    body.append("return total - failed")
+    return lines + ["    " + l for l in body]
+
+
+def gen_twins(rng, kinds, occ=None, n_fill=None):
+    """Two files holding a fragment and its related-construct twin. Returns (texts, meta)."""
+    occ = occ or rng.randint(1, 4)
+    n_fill = n_fill if n_fill is not None else rng.randint(2, 9)
+    pa, pb = rng.choice([("a.py", "b.py"), ("a.py", "pkg/b.py"), ("pkg/a.py", "b.py")])
+    hdr = ["# generated twins: %s x%d" % ("+".join(kinds), occ), ""]
+    texts = {pa: "\n".join(hdr + twin_function(kinds, occ, n_fill, 0)) + "\n",
+             pb: "\n".join(hdr + twin_function(kinds, occ, n_fill, 1)) + "\n"}
+    return texts, dict(kinds=list(kinds), occ=occ, n_fill=n_fill, a=pa, b=pb, start=3)
